@@ -13,6 +13,9 @@ mod verif;
 
 mod util;
 mod hunks;
+mod stack;
+mod dist;
+mod text;
 
 fn main() {
     let args: Vec<String> = std::env::args().collect();
@@ -24,6 +27,9 @@ fn main() {
     std::panic::set_hook(Box::new(|_| {}));
     let code = match args[1].as_str() {
         "hunks" => hunks::main(&args[2..]),
+        "textapply" => text::main(&args[2..]),
+        "dist" => dist::main(&args[2..]),
+        "stack" => stack::main(&args[2..]),
         "hunks-random" => hunks::random_main(&args[2..]),
         m => { eprintln!("unknown mode {}", m); 2 }
     };
